@@ -287,6 +287,8 @@ pub fn pool() -> Vec<RV> {
     v.push(RV::Tuple(vec![RV::Empty, RV::Empty]));
     v.push(RV::Tuple(vec![RV::Int(1), RV::Tuple(vec![RV::Int(2)])]));
     v.push(RV::Tuple(vec![RV::Str("a".into()), RV::Int(2), RV::Float(1.5)]));
+    v.push(RV::Tuple(vec![RV::Float(2.0)]));
+    v.push(RV::Tuple(vec![RV::Float(1.0), RV::Str("1".into()), RV::Bool(true)]));
     v
 }
 
